@@ -294,11 +294,17 @@ pub struct FaultyWriter {
     /// more write calls than this for one entry = the formatter is not making progress
     pub call_budget: usize,
     pub stalled: bool,
+    /// indices of `flush` calls that fail (besides `flush_err` = all of them)
+    pub flush_fail_at: BTreeSet<usize>,
+    pub flush_calls: usize,
+    /// global sequence number of the last write call, and (sequence number, ok) of every flush call
+    pub last_write_seq: u64,
+    pub flushes: Vec<(u64, bool)>,
 }
 
 impl FaultyWriter {
     pub fn perfect() -> Self {
-        FaultyWriter { received: vec![], calls: 0, chunk: 0, at_call: BTreeMap::new(), short_at_offset: None, vectored: true, fired: BTreeMap::new(), flush_err: false, call_budget: 50_000_000, stalled: false }
+        FaultyWriter { received: vec![], calls: 0, chunk: 0, at_call: BTreeMap::new(), short_at_offset: None, vectored: true, fired: BTreeMap::new(), flush_err: false, call_budget: 50_000_000, stalled: false, flush_fail_at: BTreeSet::new(), flush_calls: 0, last_write_seq: 0, flushes: vec![] }
     }
     fn fire(&mut self, k: &'static str) {
         *self.fired.entry(k).or_insert(0) += 1;
@@ -306,6 +312,9 @@ impl FaultyWriter {
     fn step(&mut self, bufs: &[&[u8]]) -> io::Result<usize> {
         let idx = self.calls;
         self.calls += 1;
+        if detsim::in_sim() {
+            self.last_write_seq = detsim::next_seq();
+        }
         if self.calls > self.call_budget {
             self.stalled = true;
             return Err(io::Error::other("harness: write-call budget exhausted"));
@@ -371,7 +380,13 @@ impl io::Write for FaultyWriter {
         }
     }
     fn flush(&mut self) -> io::Result<()> {
-        if self.flush_err {
+        let idx = self.flush_calls;
+        self.flush_calls += 1;
+        let ok = !self.flush_err && !self.flush_fail_at.contains(&idx);
+        if detsim::in_sim() {
+            self.flushes.push((detsim::next_seq(), ok));
+        }
+        if !ok {
             self.fire("writer_flush_err");
             return Err(io::Error::other("scripted flush error"));
         }
@@ -987,7 +1002,9 @@ impl Scenario for SinkFaults {
         }
         r.probe(&format!("kind_{}", js(plan, "kind", "")), 1);
         r.states = vec![mix(detsim::rng::hash_str(js(plan, "kind", "")), h.len() as u64 / 8)];
-        r.violation = check_sink_faults(plan, &h);
+        if !matches!(failure, Some(detsim::Failure::StepLimit { .. })) {
+            r.violation = check_sink_faults(plan, &h);
+        }
         r.sample = Some(json!({"kind": plan.get("kind"), "history": history_json(&h, 40)}));
         if r.violation.is_none() {
             match failure {
@@ -1108,7 +1125,11 @@ fn pipeline_main(plan: &J, hist: History, w: Arc<Mutex<FaultyWriter>>) {
         let _ = t.join();
     }
     if let H::Queue(q, j) = h {
+        // idle for a while first: the periodic flushes of an idle queue happen now
+        detsim::sleep_ns(ju(plan, "idle_before_shutdown_ns", 0));
+        hist.log(K::DropHandleBegin);
         drop(j);
+        hist.log(K::DropHandleEnd { writer_finished: true });
         drop(q);
     }
 }
@@ -1156,7 +1177,8 @@ impl Scenario for Pipeline {
         let mut faults = vec![];
         for _ in 0..rng.below(5) {
             let at = rng.below(12 * threads * per + 4);
-            faults.push(match rng.below(5) {
+            faults.push(match rng.below(6) {
+                5 => json!({"at": at, "f": "flush_fail"}),
                 0 => json!({"at": at, "f": "hard", "kind": rng.below(3)}),
                 1 => json!({"at": at, "f": "zero"}),
                 2 => json!({"at": at, "f": "short", "k": 1 + rng.below(40)}),
@@ -1168,6 +1190,7 @@ impl Scenario for Pipeline {
             "sched": sched, "kind": *rng.pick(&["queue", "queue", "immediate"]), "threads": threads, "per_thread": per,
             "chunk": *rng.pick(&[0u64, 0, 1, 5, 64]), "vectored": rng.chance(0.7), "faults": faults,
             "flush_interval_ns": *rng.pick(&[50_000u64, 5_000_000, 1_000_000_000]),
+            "idle_before_shutdown_ns": *rng.pick(&[0u64, 0, 20_000_000, 3_000_000_000]),
         })
     }
     fn run(&self, plan: &J) -> Report {
@@ -1184,6 +1207,10 @@ impl Scenario for Pipeline {
                 "hard" => WFault::Hard(HARD_KINDS[ju(f, "kind", 0) as usize % HARD_KINDS.len()]),
                 "zero" => WFault::Zero,
                 "short" => WFault::Short(ju(f, "k", 1) as usize),
+                "flush_fail" => {
+                    fw.flush_fail_at.insert(at % 6);
+                    continue;
+                }
                 _ => WFault::Interrupted,
             };
             fw.at_call.insert(at, wf);
@@ -1205,7 +1232,9 @@ impl Scenario for Pipeline {
         r.probe(&format!("pipeline_{}", js(plan, "kind", "queue")), 1);
         r.states = vec![mix(detsim::rng::hash_str(js(plan, "kind", "")), (fw.fired.len() as u64) << 8 | (h.len() as u64 / 8).min(32))];
         // the recording leg of the tee: every appended entry once, in per-producer order
-        r.violation = check_one_stream(&h, 1);
+        if !matches!(failure, Some(detsim::Failure::StepLimit { .. })) {
+            r.violation = check_one_stream(&h, 1);
+        }
         if r.violation.is_none() && failure.is_none() {
             // the bytes: in the order the entries went through the tee, each entry's complete
             // record, or a proper prefix of it for at most as many entries as hard / zero-length
@@ -1223,6 +1252,16 @@ impl Scenario for Pipeline {
             let torn = (fw.fired.get("writer_hard_err").copied().unwrap_or(0) + fw.fired.get("writer_zero").copied().unwrap_or(0)) as usize;
             if fw.stalled {
                 r.violation = Some(Violation::new("formatter_stalls", format!("the writer was called {} times for {} entries: the formatter repeats or never finishes", fw.calls, order.len())));
+            } else if js(plan, "kind", "queue") == "queue" && fw.last_write_seq > 0 && {
+                // bytes that were written must not be left behind a failed flush: either a flush
+                // succeeded after the last write, or the shutdown tried once more
+                let ok_after = fw.flushes.iter().any(|(s, ok)| *ok && *s > fw.last_write_seq);
+                let b = h.iter().find(|e| matches!(e.k, K::DropHandleBegin)).map(|e| e.seq).unwrap_or(u64::MAX);
+                let x = h.iter().find(|e| matches!(e.k, K::DropHandleEnd { .. })).map(|e| e.seq).unwrap_or(0);
+                let tried_at_shutdown = fw.flushes.iter().any(|(s, _)| *s > b && *s < x);
+                !ok_after && !tried_at_shutdown
+            } {
+                r.violation = Some(Violation::new("written_bytes_never_flushed", format!("the writer received its last bytes at #{} but no flush succeeded after that and the shutdown of the queue did not try to flush it either (flush calls: {:?})", fw.last_write_seq, fw.flushes)));
             } else if !parses(&fw.received, &recs, 0, 0, torn, &mut std::collections::HashSet::new()) {
                 let want: usize = recs.iter().map(|r| r.len()).sum();
                 r.violation = Some(Violation::new(
@@ -1303,7 +1342,7 @@ impl Scenario for EmfHistory {
         let mut calls = vec![];
         for _ in 0..n {
             let kind = rng.below(20);
-            let entry = if kind == 0 { json!({"report": *rng.pick(&["boom", "x \"y\""])}) } else { gen_entry(rng, &cfg, true, true) };
+            let entry = if kind == 0 { json!({"report": *rng.pick(&["boom", "x \"y\""]), "with_dims": rng.chance(0.5)}) } else { gen_entry(rng, &cfg, true, true) };
             let fault = if faulty && rng.chance(0.15) {
                 match rng.below(3) {
                     0 => json!({"hard_after_bytes": rng.below(300)}),
@@ -1348,7 +1387,22 @@ impl Scenario for EmfHistory {
             let mut fresh = Fmt::build(cfg);
             let mut fw = FaultyWriter::perfect();
             let (res_long, res_fresh) = if let Some(msg) = spec.get("report").and_then(|x| x.as_str()) {
-                let e = MetriqueValidationError::new(msg);
+                // an in-band error report, optionally merged with globals that define the
+                // configured dimensions (what `merge_globals` does to every entry, reports included)
+                struct ReportWithGlobals<'m> {
+                    dims: Vec<String>,
+                    inner: MetriqueValidationError<'m>,
+                }
+                impl Entry for ReportWithGlobals<'_> {
+                    fn write<'a>(&'a self, w: &mut impl EntryWriter<'a>) {
+                        for d in &self.dims {
+                            w.value(d.as_str(), "g");
+                        }
+                        self.inner.write(w);
+                    }
+                }
+                let dims = if jb(spec, "with_dims", false) { cfg_dim_names(cfg) } else { vec![] };
+                let e = ReportWithGlobals { dims, inner: MetriqueValidationError::new(msg) };
                 (long_lived.call(&e, &mut w, sampled), fresh.call(&e, &mut fw, sampled))
             } else {
                 let e = GenEntry::from_spec(spec);
